@@ -181,6 +181,64 @@ func classifyLoop(p *core.Program, fn *ssa.Function, l *core.Loop) (class, why s
 			}
 		}
 	}
+	// (iv) netip.Addr cursor: exit test X.Less(bound) and X = X.Next() stored on every path to a latch
+	for b := range l.Blocks {
+		iff, ok := b.Instrs[len(b.Instrs)-1].(*ssa.If)
+		if !ok || (l.Blocks[b.Succs[0]] && l.Blocks[b.Succs[1]]) {
+			continue
+		}
+		call, ok := iff.Cond.(*ssa.Call)
+		if !ok || core.CalleeName(call) != "(net/netip.Addr).Less" || len(call.Call.Args) != 2 {
+			continue
+		}
+		ld, ok := call.Call.Args[0].(*ssa.UnOp)
+		if !ok || ld.Op != token.MUL {
+			continue
+		}
+		loc := absint.ExprString(ld.X, 6)
+		// a store  loc = Next(*loc)  that dominates every latch
+		found := false
+		for sb := range l.Blocks {
+			for _, ins := range sb.Instrs {
+				st, ok := ins.(*ssa.Store)
+				if !ok || absint.ExprString(st.Addr, 6) != loc {
+					continue
+				}
+				nx, ok := st.Val.(*ssa.Call)
+				if !ok || core.CalleeName(nx) != "(net/netip.Addr).Next" || len(nx.Call.Args) != 1 {
+					continue
+				}
+				if src, ok := nx.Call.Args[0].(*ssa.UnOp); !ok || absint.ExprString(src.X, 6) != loc {
+					continue
+				}
+				all := true
+				for _, lt := range l.Latch {
+					if !(sb == lt || sb.Dominates(lt)) {
+						all = false
+					}
+				}
+				if all {
+					found = true
+				}
+			}
+		}
+		// no other store to loc in the loop except Next() advances or assignments outside
+		if found {
+			clean := true
+			for sb := range l.Blocks {
+				for _, ins := range sb.Instrs {
+					if st, ok := ins.(*ssa.Store); ok && absint.ExprString(st.Addr, 6) == loc {
+						if nx, ok := st.Val.(*ssa.Call); !ok || core.CalleeName(nx) != "(net/netip.Addr).Next" {
+							clean = false
+						}
+					}
+				}
+			}
+			if clean {
+				return "cursor", "netip.Addr cursor advanced by Next() on every iteration and tested with Less(bound): at most 2^32 / 2^128 steps, in practice the subnet size"
+			}
+		}
+	}
 	// (iii) ranking function established by the abstract interpreter in every context it analysed
 	for _, in := range loopFactsFrom {
 		if lf, ok := in.LoopFacts[l.Head]; ok {
